@@ -3,6 +3,7 @@
 package checks
 
 import (
+	"bytes"
 	"fmt"
 	"net"
 	"sort"
@@ -48,7 +49,14 @@ func c01Check(r *ev.Run, n *wire.N, h bind.Hist, ret *retained) {
 		if len(b) >= 32 && inner != nil {
 			// behind the embedded message come the properties, each padded to 8 bytes (12 -> 16 here:
 			// the API gives a property no data)
+			// and, if there is a property, between the message and the first one the zero bytes that
+			// bring the message to a 64-bit boundary
 			e := b[24 : len(b)-16*len(vd.L["Properties"])]
+			if np := len(vd.L["Properties"]); np > 0 && len(e) >= 8 {
+				if l := be16(e[2:4]); l >= 8 && l <= len(e) && len(e)-l < 8 && (l+7)/8*8 == len(e) && bytes.Equal(e[l:], make([]byte, len(e)-l)) {
+					e = e[:l]
+				}
+			}
 			want := wire.MsgCodes.ByKind[inner.K]
 			if e[0] != 4 || uint64(e[1]) != want || be16(e[2:4]) != len(e) {
 				bad("embedded-frame", fmt.Sprintf("message embedded in bundle-add: version %d type %d length %d, embedded bytes %d (want version 4, type %d)", e[0], e[1], be16(e[2:4]), len(e), want))
